@@ -41,6 +41,9 @@ def gen(rng, tier):
         case = {'trajs': trajs, 'lags': lags, 'tmax': tmax, 'lumped': lumped, 'alpha': akind, 'mal': None}
         if lumped:
             f = {v: 70 + (i * 2) // len(present) for i, v in enumerate(present)}
+            if rng.random() < 0.3:      # one microstate per macrostate, macro labels in another order
+                tgt = rng.sample(range(10, 60), len(present))
+                f = dict(zip(present, tgt))
             case['macro'] = [[f[v] for v in t] for t in trajs]
         r = rng.random()
         if r < 0.04:
@@ -52,6 +55,9 @@ def gen(rng, tier):
         yield case
     for case in gen_extra(rng, tier):
         yield case
+    for _ in range(2 if tier == 'quick' else 30):        # arrays of different integer widths, narrow first, > 128 states
+        trajs, dtypes, tag = G.narrow_set(rng, rng.choice(['many-mixed', 'many-unsigned']))
+        yield {'trajs': trajs, 'lags': [2, 1], 'tmax': 4, 'lumped': False, 'alpha': tag, 'mal': None, 'style': 'narrow', 'dtypes': dtypes}
     for _ in range(8 if tier == 'quick' else 100):
         # lag times handed over as a narrow signed integer array, tmax beyond that type's range
         k = rng.randint(2, 4)
@@ -103,8 +109,19 @@ def corpus():
 def impl(case):
     import numpy as np
     import msmhelper as mh
-    trajs = [np.array(t) for t in G.expand(case)]
+    from implutil import DTYPES
+    dts = case.get('dtypes')
+    trajs = [np.array(t, dtype=DTYPES[dts[i % len(dts)]] if dts else None) for i, t in enumerate(G.expand(case))]
     data = mh.LumpedStateTraj([np.array(t) for t in case['macro']], trajs) if case['lumped'] else trajs
+    if case.get('style') == 'narrow':
+        # too many states for the exact model (Wielandt power of a 180 x 180 rational matrix): relational check
+        # only - the result must be the one for the same trajectories held as int64 arrays
+        def grab(d):
+            res = mh.msm.ck_test(d, case['lags'], case['tmax'])
+            return {str(k): ([int(t) for t in v['time']], {str(int(s)): [float(x).hex() for x in c] for s, c in v['ck'].items()}) for k, v in res.items()}
+        a = grab(trajs)
+        b = grab([np.array(t, dtype=np.int64) for t in G.expand(case)])
+        return {'narrow_same': a == b}
     lags = np.array(case['lags'], dtype=case['lagtype']) if case.get('lagtype') else case['lags']
     r = mh.msm.ck_test(data, lags, case['tmax'])
     r2 = mh.msm.chapman_kolmogorov_test(data, lags, case['tmax'])
@@ -144,6 +161,10 @@ def judge(case, ibc, answers):
     for cfg, r in ibc.items():
         def P(kind, what):
             probs.append({'kind': kind, 'cfg': cfg, 'what': what, 'finding': None})
+        if case.get('style') == 'narrow':
+            if r.get('narrow_same') is not True:
+                P('impl-vs-spec', 'ck_test on arrays of different integer widths differs from the result on the same trajectories as int64 arrays: %s' % C.short(r, 100))
+            continue
         if case['mal']:
             if r.get('err') != 'TypeError':
                 P('impl-vs-spec', 'malformed %s not rejected with TypeError: %s' % (case['mal'], C.short(r, 80)))
